@@ -135,6 +135,7 @@ fn extend_lower_triangular_matrix<T: Default>(
 //@ item src/matrix_graph.rs | - | fn extend_flat_square_matrix
 /// Extends a flat square matrix (rows moved with `ptr::swap_nonoverlapping` inside `unsafe`):
 /// contract only in Verus (TRUSTED here); checked on the real body by the bounded Kani harness `extend_flat_grid`.
+// Kani-twin: a change to this body is not a trusted-body conflict - the harness is built from /repo's working tree on every run
 #[inline]
 #[verifier::external_body]
 fn extend_flat_square_matrix<T: Default>(
@@ -840,10 +841,12 @@ impl<'a, S: BuildHasher> vstd::std_specs::iter::IteratorSpecImpl for IdIterator<
 impl<S: BuildHasher> Iterator for IdIterator<'_, S> {
     type Item = usize;
 
-    // TRUSTED against vstd's `Iterator::next` contract for the `remaining()` above (the body juggles a `&mut usize`
-    // obtained from `Option::as_mut`, and a trait-impl method cannot carry the needed precondition)
+    // TRUSTED against vstd's `Iterator::next` contract for the `remaining()` above: a trait-impl method cannot carry the precondition
+    // the proof needs (`current + 1` must not overflow).  D17-twin: the same body is proved under that precondition in matrix_iditer_proof.rs
     #[verifier::external_body]
-    fn next(&mut self) -> Option<Self::Item> {
+    fn next(&mut self) -> /*+*/(res:/*-*/ Option<Self::Item>/*+*/)
+        ensures final(self).upper_bound == old(self).upper_bound, final(self).removed_ids == old(self).removed_ids/*-*/   // (proved for the twin as well)
+    {
         // initialize / advance
         let current = {
             if self.current.is_none() {
@@ -873,8 +876,9 @@ impl<S: BuildHasher> Iterator for IdIterator<'_, S> {
 impl<T, S: BuildHasher> IdStorage<T, S> {
 //@ item src/matrix_graph.rs | impl<T, S: BuildHasher> IdStorage<T, S> | fn iter_ids
     fn iter_ids(&self) -> (r: IdIterator<S>)
-        /*+*/requires self.wf()
-        ensures r.obeys_prophetic_iter_laws(), r.decrease() is Some,
+        /*+*/ensures r.obeys_prophetic_iter_laws(), r.decrease() is Some,
+            r.remaining() == ids_from(0, self.upper_bound as int, self.removed_ids.view()),       // [iter_ids_ascending_from_zero]
+            r.upper_bound == self.upper_bound, r.removed_ids == &self.removed_ids, r.current is None,
             forall|y: usize| r.remaining().contains(y) <==> self.live(y as int)/*-*/,     // [iter_ids_exactly_live]
     {
         /*+*/proof { assert forall|y: usize| ids_from(0, self.upper_bound as int, self.removed_ids.view()).contains(y) <==> self.live(y as int) by {
